@@ -51,7 +51,7 @@ class C09(PropBase):
     def init_op(self, rng):
         return {"op": "init", "sessions": [{"name": "c", "role": "c"}], "observe_pending": True,
                 "illegal_p": rng.choice([0.1, 0.3, 0.5]), "bad_p": rng.choice([0.05, 0.12, 0.3]),
-                "chunk": rng.choice(["whole", "whole", "mixed", "byte"]), "big": rng.choice([0.03, 0.12])}
+                "chunk": rng.choice(["whole", "whole", "mixed", "byte"]), "big": rng.choice([0.03, 0.12]), "style": policy.wire_style(rng)}
 
     def make(self, init):
         st = St(World(init))
